@@ -849,9 +849,11 @@ pub fn c31_from_degree_sound_no_third() {
     let (start, sub) = height_contract(h);
     assert!(0 < sub, "C31.from_degree.abbreviated_form_needs_a_block_with_a_subsidy");
     assert!(s.0 == start && s.0 < spec::SUPPLY, "C31.from_degree.abbreviated_form_is_first_sat_of_the_height");
-    assert!(h % 210_000 == e && h % 2016 == p && h / 1_260_000 == c, "C31.from_degree.accepted_height_has_the_parsed_components");
+    assert!(h % 210_000 == e, "C31.from_degree.accepted_epoch_offset_is_the_parsed_one");
+    assert!(h % 2016 == p, "C31.from_degree.accepted_period_offset_is_the_parsed_one");
+    assert!(h / 1_260_000 == c, "C31.from_degree.accepted_cycle_is_the_parsed_one");
+    kani::cover!(true, "some abbreviated degree is accepted");
   }
-  kani::cover!(Sat::from_degree(&text).is_ok(), "some abbreviated degree is accepted");
 }
 
 /// every sat's printed degree parses back to that sat.  By C29 (proved) a sat below the supply is
